@@ -373,6 +373,109 @@ theorem stat_factors {fs : FS} {r : Nat} {bp rel : Comps} {n : Node} (h : kstat 
     · simp only [pyResolve, hasBadChar_prefix hb, Bool.false_eq_true, if_false,
         walk_fuel_mono _ _ _ fs.extraLinks _ _ _ _ (walk_strict_lenient _ _ _ _ _ h1)]
 
+/-! ## `parse (str p) = p` : a path survives the trip through its string form -/
+
+/-- what `Path(...)` produces: at most two root slashes, plain components -/
+def WF (p : PPath) : Prop := p.root ≤ 2 ∧ ∀ c ∈ p.parts, Plain c
+
+theorem splitroot_root_le (s : List Ch) : (splitroot s).1 ≤ 2 := by
+  unfold splitroot
+  split
+  · simp
+  · split
+    · simp
+    · split
+      · simp
+      · split
+        · simp
+        · split
+          · simp
+          · split <;> simp
+
+theorem parse_wf (s : List Ch) : WF (parse s) := ⟨splitroot_root_le s, parse_parts_plain s⟩
+
+theorem splitSlash_noslash {c : Name} (h : SLASH ∉ c) : splitSlash c = [c] := by
+  induction c with
+  | nil => rfl
+  | cons x xs ih =>
+    simp only [List.mem_cons, not_or] at h
+    have hx : ¬ x = SLASH := fun e => h.1 e.symm
+    simp [splitSlash, hx, ih h.2]
+
+theorem splitSlash_append_slash {c : Name} (t : List Ch) (h : SLASH ∉ c) :
+    splitSlash (c ++ SLASH :: t) = c :: splitSlash t := by
+  induction c with
+  | nil => simp [splitSlash]
+  | cons x xs ih =>
+    simp only [List.mem_cons, not_or] at h
+    have hx : ¬ x = SLASH := fun e => h.1 e.symm
+    simp [splitSlash, hx, ih h.2]
+
+theorem splitSlash_joinSlash (parts : Comps) (hne : parts ≠ []) (h : ∀ c ∈ parts, SLASH ∉ c) :
+    splitSlash (joinSlash parts) = parts := by
+  induction parts with
+  | nil => exact absurd rfl hne
+  | cons c cs ih =>
+    cases cs with
+    | nil => simpa [joinSlash] using splitSlash_noslash (h c (by simp))
+    | cons d rest =>
+      simp only [joinSlash]
+      rw [splitSlash_append_slash _ (h c (by simp))]
+      rw [ih (by simp) (fun x hx => h x (by simp [hx]))]
+
+theorem joinSlash_head {a : Ch} {as : Name} {cs : Comps} : ∃ t, joinSlash ((a :: as) :: cs) = a :: t := by
+  cases cs with
+  | nil => exact ⟨as, rfl⟩
+  | cons d rest => exact ⟨as ++ SLASH :: joinSlash (d :: rest), rfl⟩
+
+theorem filter_plain (parts : Comps) (h : ∀ c ∈ parts, Plain c) :
+    parts.filter (fun x => x ≠ [] ∧ x ≠ dot) = parts := by
+  rw [List.filter_eq_self]
+  intro c hc
+  have := h c hc
+  simp [this.1, this.2.1]
+
+theorem splitroot_rel {a : Ch} (t : List Ch) (h : ¬ a = SLASH) : splitroot (a :: t) = (0, a :: t) := by
+  simp [splitroot, h]
+
+theorem splitroot_abs1 {a : Ch} (t : List Ch) (h : ¬ a = SLASH) : splitroot (SLASH :: a :: t) = (1, a :: t) := by
+  simp [splitroot, h]
+
+theorem splitroot_abs2 {a : Ch} (t : List Ch) (h : ¬ a = SLASH) :
+    splitroot (SLASH :: SLASH :: a :: t) = (2, a :: t) := by
+  simp [splitroot, h]
+
+/-- **`Path(str(p)) == p`** for every path `Path(...)` can produce -/
+theorem parse_strOf (p : PPath) (h : WF p) : parse (strOf p) = p := by
+  obtain ⟨r, parts⟩ := p
+  obtain ⟨hr, hp⟩ := h
+  simp only at hr hp
+  cases parts with
+  | nil =>
+    have : r = 0 ∨ r = 1 ∨ r = 2 := by omega
+    rcases this with rfl | rfl | rfl <;> decide
+  | cons c cs =>
+    have hc := hp c (by simp)
+    cases c with
+    | nil => exact absurd rfl hc.1
+    | cons a as =>
+      have ha : ¬ a = SLASH := fun e => hc.2.2 (by simp [e])
+      obtain ⟨t, ht⟩ := @joinSlash_head a as cs
+      have hsplit : splitSlash (a :: t) = (a :: as) :: cs := by
+        rw [← ht]; exact splitSlash_joinSlash _ (by simp) (fun x hx => (hp x hx).2.2)
+      have hfilter := filter_plain _ hp
+      have hr3 : r = 0 ∨ r = 1 ∨ r = 2 := by omega
+      rcases hr3 with rfl | rfl | rfl
+      · have hs : strOf ⟨0, (a :: as) :: cs⟩ = a :: t := by simp [strOf, ht]
+        simp only [hs, parse, splitroot_rel t ha, hsplit, hfilter]
+      · have hs : strOf ⟨1, (a :: as) :: cs⟩ = SLASH :: a :: t := by simp [strOf, ht, List.replicate]
+        simp only [hs, parse, splitroot_abs1 t ha, hsplit, hfilter]
+      · have hs : strOf ⟨2, (a :: as) :: cs⟩ = SLASH :: SLASH :: a :: t := by simp [strOf, ht, List.replicate]
+        simp only [hs, parse, splitroot_abs2 t ha, hsplit, hfilter]
+
+theorem wf_of_clean {tp : PPath} (hr : tp.root = 0) (hc : Clean tp.parts) : WF tp :=
+  ⟨by omega, fun c hcm => ⟨(hc c hcm).1, (hc c hcm).2.1, (hc c hcm).2.2.2⟩⟩
+
 /-! ## the loaders' loops -/
 
 theorem join_rel {base tp : PPath} (h : tp.root = 0) : join base tp = ⟨base.root, base.parts ++ tp.parts⟩ := by
@@ -439,7 +542,8 @@ theorem fslSearch_error {rej : Bool} {fs : FS} {tp : PPath} (htp : tp.root = 0) 
         · exact ih h
       · cases h
 
-theorem pkgSearch_ok {fs : FS} {tp : PPath} {l : List PPath} {p : PPath} (h : pkgSearch fs tp l = .ok p) :
+theorem pkgSearch_ok {fs : FS} {tp : PPath} {l : List PPath} {p : PPath} (hwf : WF tp)
+    (h : pkgSearch fs tp l = .ok p) :
     ∃ base ∈ l, p = join base tp ∧ pyIsFile fs p = .ok true := by
   induction l with
   | nil => simp [pkgSearch] at h
@@ -447,7 +551,7 @@ theorem pkgSearch_ok {fs : FS} {tp : PPath} {l : List PPath} {p : PPath} (h : pk
     have lift : (∃ b ∈ more, p = join b tp ∧ pyIsFile fs p = .ok true) →
         ∃ b ∈ base :: more, p = join b tp ∧ pyIsFile fs p = .ok true := by
       rintro ⟨b, hb, rest⟩; exact ⟨b, by simp [hb], rest⟩
-    simp only [pkgSearch] at h
+    simp only [pkgSearch, parse_strOf tp hwf] at h
     rcases pyIsFile_cases fs (join base tp) with g | g | g <;> rw [g] at h
     · cases h; exact ⟨base, by simp, rfl, g⟩
     · exact lift (ih h)
@@ -459,7 +563,7 @@ theorem pkgSearch_error {fs : FS} {tp : PPath} {l : List PPath} {e : Exc}
   | nil => simp [pkgSearch] at h; exact h.symm
   | cons base more ih =>
     simp only [pkgSearch] at h
-    rcases pyIsFile_cases fs (join base tp) with g | g | g <;> rw [g] at h
+    rcases pyIsFile_cases fs (join base (parse (strOf tp))) with g | g | g <;> rw [g] at h
     · cases h
     · exact ih h
     · exact ih h
@@ -610,5 +714,309 @@ theorem read_factors {fs : FS} {base : PPath} {rel : Comps} {c : Nat} (hne : rel
     | cons c0 rest => exact walk_strict_isDir _ _ _ _ _ _ hw2
   · have hs0 : fs.start ⟨base.root, base.parts ++ rel⟩ = fs.start base := rfl
     rw [hs0, walk_append, hw1]; exact hw2
+
+/-! ## deepening: verbatim use of the name, descent, round trip through `str` -/
+
+theorem fslTarget_parts {ext : Option Name} {tp tp' : PPath} (h : fslTarget ext tp = .ok tp') :
+    tp' = tp ∨ ∃ e, ext = some e ∧ e ≠ [] ∧ suffixOf tp.name = [] ∧ tp'.root = tp.root ∧
+      tp'.parts = tp.parts.dropLast ++ [tp.name ++ e] := by
+  unfold fslTarget at h
+  split at h
+  · rename_i c cs
+    split at h
+    · rename_i hs
+      obtain ⟨_, _, hr, hp⟩ := withSuffix_ok hs h
+      exact Or.inr ⟨c :: cs, rfl, by simp, hs, hr, hp⟩
+    · cases h; exact Or.inl rfl
+  · cases h; exact Or.inl rfl
+
+theorem parse_name_ne_nil {s : List Ch} (h : (parse s).parts ≠ []) : (parse s).name ≠ [] := by
+  unfold PPath.name
+  cases hl : (parse s).parts.getLast? with
+  | none => simp at hl; exact absurd hl h
+  | some x =>
+    simp only [Option.getD_some]
+    exact (parse_parts_plain s x (List.mem_of_getLast? hl)).1
+
+/-- plain descent to a regular file: every component on the way is a directory entry, nothing is followed -/
+theorem segment_descend (root : Node) (rel : Comps) (c : Nat) (hc : Clean rel)
+    (hb : ∀ x ∈ rel, nameBytes x ≤ NAME_MAX) :
+    ∀ cur, nodeAt root (cur ++ rel) = some (.file c) → segment false root cur rel = .done (cur ++ rel) := by
+  induction rel with
+  | nil => intro cur _; simp [segment]
+  | cons c0 rest ih =>
+    intro cur hf
+    have hcc := hc c0 (by simp)
+    have hrest : Clean rest := fun d hd => hc d (by simp [hd])
+    have hbrest : ∀ x ∈ rest, nameBytes x ≤ NAME_MAX := fun x hx => hb x (by simp [hx])
+    have hb0 : ¬ nameBytes c0 > NAME_MAX := by have := hb c0 (by simp); omega
+    -- the current node is a directory and the next one exists and is not a link
+    have h1 : nodeAt root (cur ++ c0 :: rest) = (nodeAt root cur).bind (fun m => nodeAt m (c0 :: rest)) :=
+      nodeAt_append root cur (c0 :: rest)
+    have hdir : isDir (nodeAt root cur) = true := by
+      rw [h1] at hf
+      cases hn : nodeAt root cur with
+      | none => simp [hn] at hf
+      | some m => cases m <;> simp [hn, nodeAt, isDir] at hf ⊢
+    have h2 : nodeAt root ((cur ++ [c0]) ++ rest) = (nodeAt root (cur ++ [c0])).bind (fun m => nodeAt m rest) :=
+      nodeAt_append root (cur ++ [c0]) rest
+    have hf' : nodeAt root ((cur ++ [c0]) ++ rest) = some (.file c) := by simpa using hf
+    simp only [segment, Bool.not_false, Bool.true_and, hdir, Bool.not_true, Bool.false_eq_true, if_false,
+      hcc.1, hcc.2.1, hcc.2.2.1, or_self, hb0]
+    cases hn : nodeAt root (cur ++ [c0]) with
+    | none => rw [h2, hn] at hf'; simp at hf'
+    | some m =>
+      cases m with
+      | link a t =>
+        rw [h2, hn] at hf'
+        cases rest <;> simp [nodeAt] at hf'
+      | file x => simpa [List.append_assoc] using ih hrest hbrest (cur ++ [c0]) hf'
+      | dir es => simpa [List.append_assoc] using ih hrest hbrest (cur ++ [c0]) hf'
+
+theorem isPrefix_self_append (a s : Comps) : isPrefix a (a ++ s) = true := by
+  induction a with
+  | nil => simp [isPrefix]
+  | cons x xs ih => simp [isPrefix, ih]
+
+theorem walk_descend (root : Node) (rel : Comps) (c : Nat) (hc : Clean rel) (hb : ∀ x ∈ rel, nameBytes x ≤ NAME_MAX)
+    (cur : Comps) (hf : nodeAt root (cur ++ rel) = some (.file c)) (f : Nat) :
+    walk false root f cur rel = .ok (f, cur ++ rel) :=
+  walk_done (segment_descend root rel c hc hb cur hf) f
+
+
+/-- the file at `canonical(base)/rel` is what `stat`, `exists`, `is_file`, `resolve` and `open` see at `base/rel` -/
+theorem stat_of_descend {fs : FS} {base : PPath} {rel : Comps} {cb : Comps} {c f1 : Nat}
+    (hw : walk false fs.root fs.maxLinks (fs.start base) base.parts = .ok (f1, cb))
+    (hc : Clean rel) (hb : ∀ x ∈ rel, nameBytes x ≤ NAME_MAX)
+    (hf : nodeAt fs.root (cb ++ rel) = some (.file c))
+    (hbad : hasBadChar ⟨base.root, base.parts ++ rel⟩ = false)
+    (hlen : strBytes ⟨base.root, base.parts ++ rel⟩ < PATH_MAX) :
+    kstat fs ⟨base.root, base.parts ++ rel⟩ = .ok (.file c) := by
+  have hs0 : fs.start ⟨base.root, base.parts ++ rel⟩ = fs.start base := rfl
+  have hwalk : walk false fs.root fs.maxLinks (fs.start ⟨base.root, base.parts ++ rel⟩) (base.parts ++ rel)
+      = .ok (f1, cb ++ rel) := by
+    rw [hs0, walk_append, hw]
+    exact walk_descend fs.root rel c hc hb cb hf f1
+  have hl : ¬ strBytes ⟨base.root, base.parts ++ rel⟩ ≥ PATH_MAX := by omega
+  simp [kstat, hbad, hl, hwalk, hf]
+
+theorem fslProbe_of_file {fs : FS} {p : PPath} {c : Nat} (h : kstat fs p = .ok (.file c)) : fslProbe fs p = .ok true := by
+  simp [fslProbe, pyExists, pyIsFile, h]
+
+theorem fslProbe_false_of_no_file {fs : FS} {p : PPath} (h : ∀ c, kstat fs p ≠ .ok (.file c)) : fslProbe fs p = .ok false := by
+  obtain ⟨b, hb⟩ := fslProbe_total fs p
+  cases b with
+  | false => exact hb
+  | true => obtain ⟨c, hc⟩ := fslProbe_true hb; exact absurd hc (h c)
+
+/-- the search loop stops at the first directory that has the file (earlier ones do not have it) -/
+theorem fslSearch_hit {rej : Bool} {fs : FS} {tp : PPath} (htp : tp.root = 0) {pre post : List PPath} {base : PPath}
+    {cb : Comps} {c f1 : Nat}
+    (hpre : ∀ b ∈ pre, ∀ c', kstat fs (join b tp) ≠ .ok (.file c'))
+    (hw : walk false fs.root fs.maxLinks (fs.start base) base.parts = .ok (f1, cb))
+    (hc : Clean tp.parts) (hne : tp.parts ≠ []) (hb : ∀ x ∈ tp.parts, nameBytes x ≤ NAME_MAX)
+    (hf : nodeAt fs.root (cb ++ tp.parts) = some (.file c))
+    (hbad : hasBadChar ⟨base.root, base.parts ++ tp.parts⟩ = false)
+    (hlen : strBytes ⟨base.root, base.parts ++ tp.parts⟩ < PATH_MAX) :
+    fslSearch rej fs tp (pre ++ base :: post) = .ok ⟨base.root, base.parts ++ tp.parts⟩ := by
+  induction pre with
+  | cons b more ih =>
+    simp only [List.cons_append, fslSearch]
+    rw [fslProbe_false_of_no_file (hpre b (by simp))]
+    exact ih (fun b' hb' => hpre b' (by simp [hb']))
+  | nil =>
+    have hk := stat_of_descend hw hc hb hf hbad hlen
+    simp only [List.nil_append, fslSearch, join_rel htp, fslProbe_of_file hk]
+    cases rej with
+    | false => simp
+    | true =>
+      obtain ⟨f1', m, f, q, hw1, hw2, hnode, _, _, hr, hbres⟩ := read_factors hne hk
+      rw [hw] at hw1; cases hw1
+      have := walk_descend fs.root tp.parts c hc hb cb hf f1
+      rw [this] at hw2; cases hw2
+      simp [hr, hbres, isPrefix_self_append]
+
+
+
+theorem pkgSearch_hit {fs : FS} {tp : PPath} (htp : tp.root = 0) {pre post : List PPath} {base : PPath}
+    {cb : Comps} {c f1 : Nat}
+    (hpre : ∀ b ∈ pre, ∀ c', kstat fs (join b tp) ≠ .ok (.file c'))
+    (hw : walk false fs.root fs.maxLinks (fs.start base) base.parts = .ok (f1, cb))
+    (hc : Clean tp.parts) (hb : ∀ x ∈ tp.parts, nameBytes x ≤ NAME_MAX)
+    (hf : nodeAt fs.root (cb ++ tp.parts) = some (.file c))
+    (hbad : hasBadChar ⟨base.root, base.parts ++ tp.parts⟩ = false)
+    (hlen : strBytes ⟨base.root, base.parts ++ tp.parts⟩ < PATH_MAX) :
+    pkgSearch fs tp (pre ++ base :: post) = .ok ⟨base.root, base.parts ++ tp.parts⟩ := by
+  have hwf := wf_of_clean htp hc
+  induction pre with
+  | cons b more ih =>
+    simp only [List.cons_append, pkgSearch, parse_strOf tp hwf]
+    rcases pyIsFile_cases fs (join b tp) with g | g | g
+    · obtain ⟨c', hc'⟩ := pyIsFile_true g
+      exact absurd hc' (hpre b (by simp) c')
+    · rw [g]; exact ih (fun b' hb' => hpre b' (by simp [hb']))
+    · rw [g]; exact ih (fun b' hb' => hpre b' (by simp [hb']))
+  | nil =>
+    have hk := stat_of_descend hw hc hb hf hbad hlen
+    simp [pkgSearch, parse_strOf tp hwf, join_rel htp, pyIsFile, hk]
+
+theorem canon_walk {fs : FS} {p : PPath} {cb : Comps}
+    (h : (match walk false fs.root fs.maxLinks (fs.start p) p.parts with
+          | .ok (_, q) => some q
+          | .error _ => none) = some cb) :
+    ∃ f1, walk false fs.root fs.maxLinks (fs.start p) p.parts = .ok (f1, cb) := by
+  split at h
+  · rename_i f q hq; cases h; exact ⟨f, hq⟩
+  · cases h
+
+
+theorem fslResolve_target {cfg : FSLConfig} {fs : FS} {name : List Ch} {p : PPath} (h : fslResolve cfg fs name = .ok p) :
+    ∃ tp', fslTarget cfg.ext (parse name) = .ok tp' ∧ tp'.root = 0 ∧
+      fslSearch cfg.rejectSymlinks fs tp' cfg.search = .ok p := by
+  unfold fslResolve at h
+  simp only at h
+  split at h
+  · cases h
+  · split at h
+    · cases h
+    · rename_i tp' ht
+      split at h
+      · cases h
+      · rename_i hchk
+        simp only [not_or, PPath.isAbsolute, decide_eq_true_eq, Nat.not_lt, Nat.le_zero_eq] at hchk
+        exact ⟨tp', ht, hchk.2, h⟩
+
+/-- the suffix step of `PackageLoader._resolve_path` -/
+def pkgTarget (ext : Name) (tp : PPath) : Except Exc PPath :=
+  if suffixOf tp.name = [] then withSuffix tp ext else .ok tp
+
+theorem pkgResolve_target {cfg : PkgConfig} {fs : FS} {name : List Ch} {p : PPath} (h : pkgResolve cfg fs name = .ok p) :
+    ∃ tp', pkgTarget cfg.ext (parse name) = .ok tp' ∧ tp'.root = 0 ∧ Clean tp'.parts ∧
+      pkgSearch fs tp' cfg.paths = .ok p := by
+  unfold pkgResolve at h
+  simp only at h
+  split at h
+  · cases h
+  · rename_i hn
+    split at h
+    · cases h
+    · rename_i hchk
+      simp only [not_or, PPath.isAbsolute, decide_eq_true_eq, Nat.not_lt, Nat.le_zero_eq] at hchk
+      split at h
+      · cases h
+      · rename_i tp' ht
+        refine ⟨tp', ht, ?_, ?_, h⟩
+        · split at ht
+          · rename_i hs; exact (withSuffix_ok hs ht).2.2.1.trans hchk.2
+          · cases ht; exact hchk.2
+        · split at ht
+          · rename_i hs
+            obtain ⟨_, _, _, hpl⟩ := withSuffix_parts_plain hs ht (Or.inr trivial) (parse_parts_plain name)
+            exact clean_of_plain hpl (no_dotdot_after_suffix hs ht (parse_parts_plain name) hchk.1)
+          · cases ht; exact clean_of_plain (parse_parts_plain name) hchk.1
+
+theorem pkgTarget_parts {ext : Name} {tp tp' : PPath} (h : pkgTarget ext tp = .ok tp') :
+    tp' = tp ∨ (suffixOf tp.name = [] ∧ tp'.root = tp.root ∧ tp'.parts = tp.parts.dropLast ++ [tp.name ++ ext]) := by
+  unfold pkgTarget at h
+  split at h
+  · rename_i hs
+    obtain ⟨_, _, hr, hp⟩ := withSuffix_ok hs h
+    exact Or.inr ⟨hs, hr, hp⟩
+  · cases h; exact Or.inl rfl
+
+/-! ## the caching loader only ever stores and serves answers `get_source` gave -/
+
+/-- every cached entry is an answer `get_source` gave, for the entry's key, on one of the file systems seen so far -/
+def CacheInv (cfg : FSLConfig) (H : List (FS × List Ch)) (cache : List CEntry) : Prop :=
+  ∀ e ∈ cache, ∃ fs, (fs, e.key) ∈ H ∧ fslGetSource cfg fs e.key = .ok (e.path, e.content)
+
+theorem cacheFind_some {c : List CEntry} {k : List Ch} {e : CEntry} (h : cacheFind c k = some e) : e ∈ c ∧ e.key = k := by
+  unfold cacheFind at h
+  exact ⟨List.mem_of_find?_eq_some h, by simpa using List.find?_some h⟩
+
+theorem mem_cacheTouch {c : List CEntry} {k : List Ch} {x : CEntry} (h : x ∈ cacheTouch c k) : x ∈ c := by
+  unfold cacheTouch at h
+  split at h
+  · rename_i e he
+    simp only [List.mem_append, List.mem_filter, List.mem_cons, List.not_mem_nil, or_false] at h
+    rcases h with h | rfl
+    · exact h.1
+    · exact (cacheFind_some he).1
+  · exact h
+
+theorem mem_cacheSet {cap : Nat} {c : List CEntry} {e x : CEntry} (h : x ∈ cacheSet cap c e) : x ∈ c ∨ x = e := by
+  unfold cacheSet at h
+  split at h
+  · simp only [List.mem_append, List.mem_filter, List.mem_cons, List.not_mem_nil, or_false] at h
+    rcases h with h | rfl
+    · exact Or.inl h.1
+    · exact Or.inr rfl
+  · simp only [List.mem_append, List.mem_cons, List.not_mem_nil, or_false] at h
+    rcases h with h | rfl
+    · split at h
+      · exact Or.inl (List.mem_of_mem_drop h)
+      · exact Or.inl h
+    · exact Or.inr rfl
+
+theorem fslLoad_ok {cfg : FSLConfig} {fs : FS} {mt : Comps → Nat} {name : List Ch} {e : CEntry}
+    (h : fslLoad cfg fs mt name = .ok e) : e.key = name ∧ fslGetSource cfg fs name = .ok (e.path, e.content) := by
+  unfold fslLoad at h
+  split at h
+  · cases h
+  · rename_i p c hg
+    split at h
+    · cases h; exact ⟨rfl, hg⟩
+    · cases h
+
+theorem CacheInv.mono {cfg : FSLConfig} {H : List (FS × List Ch)} {cache : List CEntry} (x : FS × List Ch)
+    (h : CacheInv cfg H cache) : CacheInv cfg (x :: H) cache :=
+  fun e he => let ⟨fs, hm, hg⟩ := h e he; ⟨fs, List.mem_cons_of_mem _ hm, hg⟩
+
+/-- one request: the invariant is kept and the answer, if any, is a past or present answer for this very name -/
+theorem cachedLoad_step (L : CCfg) (fs : FS) (mt : Comps → Nat) (H : List (FS × List Ch)) (cache : List CEntry)
+    (name : List Ch) (hinv : CacheInv L.fsl H cache) :
+    CacheInv L.fsl ((fs, name) :: H) (cachedLoad L fs mt cache name).1 ∧
+    ∀ p c, (cachedLoad L fs mt cache name).2 = .ok (p, c) →
+      ∃ fs', (fs', name) ∈ (fs, name) :: H ∧ fslGetSource L.fsl fs' name = .ok (p, c) := by
+  have hmono := CacheInv.mono (fs, name) hinv
+  have touch : CacheInv L.fsl ((fs, name) :: H) (cacheTouch cache name) :=
+    fun e he => hmono e (mem_cacheTouch he)
+  have set_ok : ∀ (c0 : List CEntry) (e : CEntry), CacheInv L.fsl ((fs, name) :: H) c0 →
+      fslLoad L.fsl fs mt name = .ok e → CacheInv L.fsl ((fs, name) :: H) (cacheSet L.capacity c0 e) := by
+    intro c0 e h0 hl x hx
+    rcases mem_cacheSet hx with hx | rfl
+    · exact h0 x hx
+    · obtain ⟨hk, hg⟩ := fslLoad_ok hl
+      exact ⟨fs, by rw [hk]; simp, by rw [hk]; exact hg⟩
+  have fresh : ∀ (e : CEntry) p c, fslLoad L.fsl fs mt name = .ok e → (e.path, e.content) = (p, c) →
+      ∃ fs', (fs', name) ∈ (fs, name) :: H ∧ fslGetSource L.fsl fs' name = .ok (p, c) := by
+    intro e p c hl heq
+    obtain ⟨_, hg⟩ := fslLoad_ok hl
+    exact ⟨fs, by simp, by rw [← heq]; exact hg⟩
+  have stale : ∀ (ent : CEntry) p c, cacheFind cache name = some ent → (ent.path, ent.content) = (p, c) →
+      ∃ fs', (fs', name) ∈ (fs, name) :: H ∧ fslGetSource L.fsl fs' name = .ok (p, c) := by
+    intro ent p c hf heq
+    obtain ⟨hm, hk⟩ := cacheFind_some hf
+    obtain ⟨fs', hm', hg⟩ := hinv ent hm
+    exact ⟨fs', by rw [← hk]; exact List.mem_cons_of_mem _ hm', by rw [← heq, ← hk]; exact hg⟩
+  unfold cachedLoad
+  split
+  · -- miss
+    split
+    · rename_i e hl
+      exact ⟨set_ok _ _ hmono hl, fun p c h => fresh e p c hl (by simpa using h)⟩
+    · exact ⟨hmono, fun p c h => by simp at h⟩
+  · rename_i ent hf
+    simp only
+    split
+    · split
+      · exact ⟨touch, fun p c h => by simp at h⟩
+      · exact ⟨touch, fun p c h => stale ent p c hf (by simpa using h)⟩
+      · split
+        · rename_i e hl
+          exact ⟨set_ok _ _ touch hl, fun p c h => fresh e p c hl (by simpa using h)⟩
+        · exact ⟨touch, fun p c h => by simp at h⟩
+    · exact ⟨touch, fun p c h => stale ent p c hf (by simpa using h)⟩
+
 
 end LiquidVerif.PathSafe
